@@ -5,6 +5,6 @@ CONSTANTS
   Batch = 32
   RejoinMs = 30000
   MaxL = 4
-  Check = {"C01","C06","C07","C08","C09","C14"}
+  Check = {"C07"}
 POSTCONDITION TraceAccepted
 CHECK_DEADLOCK FALSE
